@@ -37,7 +37,7 @@ def class_source(case: dict) -> str:
     wo = case.get("wo", "")
     lines = ["from dataclasses import dataclass, field, InitVar",
              "from apischema import alias, validator, ValidationError, dependent_required, schema",
-             "from apischema.metadata import validators", "from typing import Annotated",
+             "from apischema.metadata import validators", "from typing import Annotated, List, Optional",
              "from apischema.objects import get_alias", "from typing import Generic, TypeVar", "T = TypeVar('T')", "CALLS = []", "OUT = {}", "CTOR = [0]", ""]
 
     def fields_block():
@@ -143,6 +143,11 @@ def ext_block(case: dict) -> List[str]:
         out += [f"TARGET = {tp}", f"VARGS = [{names}]", "WRAP = None"]
     elif mode == "annotated":
         out += [f"TARGET = Annotated[{tp}, validators({names})]", "VARGS = []", "WRAP = None"]
+    elif mode == "recref":
+        # the validators sit on the back-reference of the recursive class R; the object is held by the referenced node
+        out += ["@dataclass", "class R:", f"    k_f: List[{tp}] = field(default_factory=list, metadata=alias('P'))",
+                f"    nxt: List[Annotated['R', validators({names})]] = field(default_factory=list, metadata=alias('N'))",
+                "TARGET = R", "VARGS = []", "WRAP = ['N', 0, 'P', 0]"]
     else:
         out += ["@dataclass", "class W:", f"    k_f: {tp} = field(metadata=alias('W') | validators({names}))",
                 "TARGET = W", "VARGS = []", "WRAP = 'W'"]
@@ -168,7 +173,7 @@ def build(case: dict):
         import linecache
 
         linecache.cache[mod.__file__] = (len(src), None, src.splitlines(True), mod.__file__)
-        exec(compile(src, mod.__file__, "exec"), mod.__dict__)
+        exec(compile(src, mod.__file__, "exec", dont_inherit=True), mod.__dict__)   # not under this file's PEP 563 future import
         _classes[key] = mod
     return _classes[key]
 
@@ -206,19 +211,26 @@ def run_case(case: dict, timeout_s: float = 5.0) -> dict:
         elif f["st"] == "invalid":
             data[f["alias"]] = "x"
     out: Dict[str, Any]
-    if mod.WRAP is not None:
-        data = {mod.WRAP: data}
+    wrap = [mod.WRAP] if isinstance(mod.WRAP, str) else mod.WRAP     # path of enclosing keys down to the object
+    if wrap is not None:
+        for key in reversed(wrap):
+            data = [data] if isinstance(key, int) else {key: data}
     try:
         res = deserialize(mod.TARGET, data, validators=mod.VARGS) if mod.VARGS else deserialize(mod.TARGET, data)
         out = {"kind": "ok", "errs": []}
     except ValidationError as err:
         errs = bridge.enc_errors(err.errors)
-        if mod.WRAP is not None:
-            # the model describes the object itself: every error lies under the enclosing key
-            if all(loc[:1] == [mod.WRAP] for loc, _ in errs):
-                errs = [[loc[1:], rule] for loc, rule in errs]
-            else:
-                errs = [[["<outside the enclosing key>"] + loc, rule] for loc, rule in errs]
+        if wrap is not None:
+            # the model describes the object itself: every error lies under the enclosing keys (the errors of the
+            # validators attached to the enclosing position are reported AT that position: the root for the model)
+            anchor = wrap[:2] if len(wrap) > 1 else wrap      # where the attached validators report
+            def rebase(loc):
+                if loc[:len(wrap)] == wrap:
+                    return loc[len(wrap):]
+                if loc == anchor:
+                    return []
+                return ["<outside the enclosing key>"] + loc
+            errs = [[rebase(loc), rule] for loc, rule in errs]
         out = {"kind": "verr", "errs": errs}
     except RecursionError:
         out = {"kind": "nonterm", "errs": []}
